@@ -55,6 +55,7 @@ type heReq struct {
 	body      int   // bytes the body reader produces
 	declLen   int64 // Request.ContentLength (0 with a body = undeclared)
 	chunks    []int // sizes returned by the body reader, cycled
+	scratch   int   // lower bound of the Transport's read buffer: no Read returns more (see heBody.Read)
 	stepped   int   // number of leading body reads that are scheduler steps
 	eofData   bool  // final chunk is returned together with io.EOF
 	trailers  []heField
@@ -187,7 +188,7 @@ func heDrawFields(c vs.Chooser, prefix string, maxFields, budget int, big bool, 
 				v = vals[c.Intn(len(vals))] // exact duplicate of an earlier value of this name
 			} else {
 				sz := vs.SizeBiased(c, 160, 0, 1, 64)
-				if big && vs.Pct(c, 40) {
+				if big && vs.Pct(c, 50) {
 					sz = vs.Pick(c, 3000, 8000, 16000, 16384, 20000) + c.Intn(200)
 				}
 				seed := uint32(c.Intn(1 << 16))
@@ -247,7 +248,7 @@ func heDrawPlan(rt *rapid.T, cfg string) *hePlan {
 	p := &hePlan{cfg: cfg, cutAfter: -1}
 	p.sched = vs.Pick(c, "default", "roundrobin", "rfc7540", "rfc9218")
 	p.maxStreams = uint32(vs.Pick(c, 0, 1, 2, 3, 100))
-	p.strict = vs.Pct(c, 70)
+	p.strict = vs.Pct(c, 85)
 	p.upConn = int32(vs.Pick(c, 0, 65535, 70000, 1<<20, 1<<24))
 	p.upStream = int32(vs.Pick(c, 0, 1<<20, 65535, 5000, 1000, 37, 1, 1<<22))
 	p.srvMaxRead = uint32(vs.Pick(c, 0, 16384, 16385, 20000, 65536, 1<<20, 1<<24-1))
@@ -264,7 +265,7 @@ func heDrawPlan(rt *rapid.T, cfg string) *hePlan {
 		p.cliConnWin = vs.Pick(c, 0, 65535, 70000, 1<<20)
 	}
 	if vs.Pct(c, 20) {
-		p.boundBA = vs.Pick(c, 1, 9, 100, 5000, 70000)
+		p.boundBA = vs.Pick(c, 5000, 1, 9, 100, 70000)
 	}
 	upStreamEff := int(p.upStream)
 	if upStreamEff == 0 {
@@ -286,6 +287,9 @@ func heDrawPlan(rt *rapid.T, cfg string) *hePlan {
 	maxBody := vs.Thorough(64<<10, 512<<10)
 	reqCap := min(maxBody, upStreamEff*100)
 	respCap := min(maxBody, cliStreamEff*100)
+	if p.boundBA > 0 {
+		respCap = min(respCap, p.boundBA*300) // every bound-full of bytes needs a delivery step
+	}
 	maxHdrTotal := vs.Thorough(48000, 140000)
 
 	n := vs.Range(c, 1, 6)
@@ -318,7 +322,7 @@ func heDrawPlan(rt *rapid.T, cfg string) *hePlan {
 		overhead := 49 + 43 + 37 + len(q.path) + 44 + 39 + trKeys + 53 + 60 + 64
 		budget := min(srvLimit-overhead, maxHdrTotal)
 		if vs.Pct(c, 90) && budget > 64 {
-			big := vs.Pct(c, 15)
+			big := vs.Pct(c, 20)
 			q.hdr = heDrawFields(c, "X-Vf-R"+strconv.Itoa(i)+"-", 60, budget, big, false)
 		}
 		if vs.Pct(c, 3) && srvLimit <= 20000 {
@@ -392,7 +396,7 @@ func heDrawPlan(rt *rapid.T, cfg string) *hePlan {
 			roverhead := 42 + 68 + 53 + 65 + tk + 64
 			rbudget := min(cliLimit-roverhead, maxHdrTotal)
 			if vs.Pct(c, 85) && rbudget > 64 {
-				q.rhdr = heDrawFields(c, "X-Vf-S", 40, rbudget, vs.Pct(c, 12), true)
+				q.rhdr = heDrawFields(c, "X-Vf-S", 40, rbudget, vs.Pct(c, 18), true)
 			}
 			if !noBodyStatus && vs.Pct(c, 30) {
 				q.rdeclCL = int64(q.rbody)
@@ -486,6 +490,20 @@ func heDrawPlan(rt *rapid.T, cfg string) *hePlan {
 				q.planned = true
 			}
 		}
+		if q.hasBody {
+			// The Transport reads the body into a pooled buffer that is at least
+			// min(peer's max frame size, 512 KiB, ContentLength+1) bytes long but
+			// may be longer (sync.Pool leftovers of earlier connections). Reads
+			// never return more than that lower bound, so that the DATA framing
+			// does not depend on the state of the pool.
+			q.scratch = 512 << 10
+			if sm := int(p.srvMaxRead); sm != 0 {
+				q.scratch = min(q.scratch, sm)
+			}
+			if q.declLen > 0 {
+				q.scratch = min(q.scratch, int(q.declLen)+1)
+			}
+		}
 		if q.overReq {
 			q.planned = true
 		}
@@ -513,6 +531,8 @@ func heAvoid(name string) bool {
 	}
 	return false
 }
+
+var heDebugFrames = os.Getenv("VERIF_H2E2E_FRAMES") != ""
 
 func heValuePath(seed uint32, n int) string {
 	const set = "abcdefghijklmnopqrstuvwxyz0123456789-._~"
@@ -598,6 +618,12 @@ type heRun struct {
 
 	monAB, monBA *vmParser
 	ledAB, ledBA heLedger
+
+	// select-race detection (see check): server frames not yet delivered
+	pendBA  []*vmFrame
+	prevBA  int64
+	raced   bool
+	cEnded  map[uint32]bool // streams on which the client has written END_STREAM
 }
 
 // heLedger is the passive flow-control ledger of one direction.
@@ -783,7 +809,7 @@ func (b *heBody) Read(p []byte) (n int, err error) {
 		b.finish()
 		return 0, errHeBodyFault
 	}
-	k := len(p)
+	k := min(len(p), q.scratch)
 	if len(q.chunks) > 0 {
 		k = min(k, q.chunks[b.ci%len(q.chunks)])
 	}
@@ -1449,6 +1475,14 @@ func (r *heRun) check() *vs.Violation {
 			r.ledAB.hdrs[f.SID]++
 		}
 	}
+	if heDebugFrames {
+		for _, f := range fsBA {
+			r.tr.Ev("    s2c %v", f)
+		}
+		for _, f := range fsAB {
+			r.tr.Ev("    c2s %v", f)
+		}
+	}
 	for sid, n := range r.ledAB.hdrs {
 		if _, ok := r.ledBA.rstStep[sid]; ok && n >= 2 && !r.ledAB.lateTrl {
 			// request trailers were written for a stream the server has reset
@@ -1456,6 +1490,35 @@ func (r *heRun) check() *vs.Violation {
 			r.ledAB.lateTrl = true
 			vs.G.Inc("probe.trailers_and_server_rst")
 		}
+	}
+	// The Transport's writeRequest selects over cs.peerClosed and cs.abort. When
+	// the server has ended a stream and then sends RST_STREAM(NO_ERROR) (early
+	// response) while the client has not finished sending the request, the
+	// client's request writer can find both ready and Go's select picks at
+	// random (the client then does or does not send its own RST_STREAM). Such
+	// runs are legitimate and stay under the oracle, but their traces are not
+	// reproducible: they are excluded from the distinct-trace evidence
+	// (probe.select_race_run).
+	for _, f := range fsAB {
+		if (f.Type == FrameData && f.Flags&FlagDataEndStream != 0) || (f.HdrDone && f.HdrEndStr) {
+			r.cEnded[f.SID] = true
+		}
+	}
+	r.pendBA = append(r.pendBA, fsBA...)
+	if cur := r.conn.DeliveredBA(); cur != r.prevBA {
+		k := 0
+		for _, f := range r.pendBA {
+			if f.End > cur {
+				break
+			}
+			k++
+			if f.Type == FrameRSTStream && len(f.Payload) == 4 && f.Payload[0]|f.Payload[1]|f.Payload[2]|f.Payload[3] == 0 && !r.cEnded[f.SID] && !r.raced {
+				r.raced = true
+				vs.G.Inc("probe.select_race_run")
+			}
+		}
+		r.pendBA = r.pendBA[k:]
+		r.prevBA = cur
 	}
 	for _, f := range fsBA {
 		if v := heWire("s2c", f, &r.ledBA, &r.ledAB); v != nil {
@@ -1491,29 +1554,70 @@ func heScheduler(name string) func() WriteScheduler {
 	return nil
 }
 
-// heSplitHint proposes chunk sizes that end inside / at frame headers.
-func heSplitHint(b []byte) []int {
+// heBounds tracks the frame boundaries of one direction from the bytes as they
+// are written, so that delivery hints depend only on frame lengths, never on
+// frame contents (header blocks are encoded in map order by the Transport).
+// All methods run under the link's mutex (tap and split hint are called there).
+type heBounds struct {
+	written int64
+	preface int64 // bytes of client preface still to skip
+	nh      int   // bytes of the current frame header seen so far
+	hdr     [3]byte
+	skip    int64   // bytes of the current frame (rest of header + payload) still to come
+	starts  []int64 // absolute offsets of frame starts not yet fully delivered
+}
+
+func (t *heBounds) write(b []byte) {
+	for len(b) > 0 {
+		if t.preface > 0 {
+			k := min(int64(len(b)), t.preface)
+			t.preface -= k
+			t.written += k
+			b = b[k:]
+			continue
+		}
+		if t.skip > 0 {
+			k := min(int64(len(b)), t.skip)
+			t.skip -= k
+			t.written += k
+			b = b[k:]
+			continue
+		}
+		if t.nh == 0 {
+			t.starts = append(t.starts, t.written)
+		}
+		t.hdr[t.nh] = b[0]
+		t.nh++
+		t.written++
+		b = b[1:]
+		if t.nh == 3 {
+			t.skip = 6 + (int64(t.hdr[0])<<16 | int64(t.hdr[1])<<8 | int64(t.hdr[2]))
+			t.nh = 0
+		}
+	}
+}
+
+// hint proposes chunk sizes that end inside frame headers and at frame boundaries.
+func (t *heBounds) hint(inflight []byte) []int {
+	delivered := t.written - int64(len(inflight))
+	for len(t.starts) > 1 && t.starts[1] <= delivered {
+		t.starts = t.starts[1:]
+	}
 	var out []int
-	off := 0
-	if len(b) >= len(ClientPreface) && string(b[:4]) == "PRI " {
-		off = len(ClientPreface)
-		out = append(out, 1, off)
-	}
-	for off+9 <= len(b) && len(out) < 10 {
-		l := int(b[off])<<16 | int(b[off+1])<<8 | int(b[off+2])
-		out = append(out, off+1, off+9)
-		off += 9 + l
-		if off <= len(b) {
-			out = append(out, off)
+	add := func(off int64) {
+		if off >= 1 && off <= int64(len(inflight)) && len(out) < 12 {
+			out = append(out, int(off))
 		}
 	}
-	var res []int
-	for _, h := range out {
-		if h >= 1 && h <= len(b) {
-			res = append(res, h)
+	for _, st := range t.starts {
+		if len(out) >= 10 {
+			break
 		}
+		add(st - delivered)     // end of the previous frame
+		add(st - delivered + 1) // one byte into the header
+		add(st - delivered + 9) // exactly the header
 	}
-	return res
+	return out
 }
 
 func heSig(pending []string) string {
@@ -1550,14 +1654,15 @@ func heRunOnce(t *testing.T, rt *rapid.T, cfg string) {
 		sim := vs.NewSim(tape, tr)
 		sim.MaxSteps = vs.Thorough(30000, 120000)
 		sim.Horizon = 2 * time.Minute
-		r := &heRun{p: p, sim: sim, tr: tr}
+		r := &heRun{p: p, sim: sim, tr: tr, cEnded: map[uint32]bool{}}
 		for range p.reqs {
 			r.reqs = append(r.reqs, &heReqState{})
 		}
 		r.conn = vs.NewStreamConn(sim, "h2")
 		r.conn.DeliverWeight = 4
-		r.conn.SplitHintAB = heSplitHint
-		r.conn.SplitHintBA = heSplitHint
+		bAB, bBA := &heBounds{preface: int64(len(ClientPreface))}, &heBounds{}
+		r.conn.SplitHintAB = bAB.hint
+		r.conn.SplitHintBA = bBA.hint
 		if p.boundBA > 0 {
 			r.conn.BoundBA(p.boundBA) // never on the client->server direction (DESIGN 3.3)
 		}
@@ -1567,8 +1672,8 @@ func heRunOnce(t *testing.T, rt *rapid.T, cfg string) {
 		r.monBA.allowTableSize(1 << 20)
 		r.ledAB.init()
 		r.ledBA.init()
-		r.conn.TapAB(func(b []byte) { r.monAB.write(b) })
-		r.conn.TapBA(func(b []byte) { r.monBA.write(b) })
+		r.conn.TapAB(func(b []byte) { r.monAB.write(b); bAB.write(b) })
+		r.conn.TapBA(func(b []byte) { r.monBA.write(b); bBA.write(b) })
 
 		srv := &Server{MaxConcurrentStreams: p.maxStreams, MaxUploadBufferPerConnection: p.upConn,
 			MaxUploadBufferPerStream: p.upStream, MaxReadFrameSize: p.srvMaxRead,
@@ -1635,13 +1740,13 @@ func heRunOnce(t *testing.T, rt *rapid.T, cfg string) {
 		}
 		r.mu.Lock()
 		r.ending = true
-		nontrivial = r.okResp > 0
+		nontrivial = r.okResp > 0 && !r.raced
 		if cfg == "fault" {
 			started := false
 			for _, rs := range r.reqs {
 				started = started || rs.cStarted
 			}
-			nontrivial = started && (r.faults > 0 || r.conn.IsCut())
+			nontrivial = started && (r.faults > 0 || r.conn.IsCut()) && !r.raced
 		}
 		var cancels []context.CancelFunc
 		for _, rs := range r.reqs {
@@ -1673,6 +1778,12 @@ func heRunOnce(t *testing.T, rt *rapid.T, cfg string) {
 	})
 	if deadlock != "" && viol == nil && harness == "" {
 		harness = "bubble did not wind down: " + deadlock
+	}
+	if dp := os.Getenv("VERIF_H2E2E_DUMP"); dp != "" {
+		if f, err := os.OpenFile(dp, os.O_APPEND|os.O_CREATE|os.O_WRONLY, 0o644); err == nil {
+			fmt.Fprintf(f, "RUN %x n=%d nontrivial=%v\n%s\n", tr.Hash(), tr.N, nontrivial, strings.Join(tr.Log, "\n"))
+			f.Close()
+		}
 	}
 	vs.G.EndRun(tr, nontrivial, simDur, func() any {
 		return map[string]any{"config": cfg, "trace_head": tr.Log[:min(len(tr.Log), 60)]}
